@@ -234,6 +234,28 @@ pub fn run(ctx: &Ctx) -> (&'static str, &'static str) {
                 }
             }
         }
+        // every small multiple of p (+-1) that fits the block, alone and under a non-zero high part (any split point
+        // hi || lo of the block that makes lo >= p needs a reduction of lo)
+        let mut k = 1u32;
+        while (p * k) < full {
+            for hi in [BigUint::from(0u32), BigUint::from(1u32), alpha::pow2(127), alpha::pow2(128) - 1u32] {
+                for delta in [0i32, 1, -1] {
+                    let lo = if delta >= 0 { p * k + delta as u32 } else { p * k - 1u32 };
+                    let v = (&hi << p.bits()) + &lo;
+                    if v < full {
+                        ints.push(v);
+                    }
+                    let v2 = (&hi << (8 * l - 128)) | &lo;
+                    if v2 < full {
+                        ints.push(v2);
+                    }
+                }
+            }
+            k += 1;
+            if k > 12 {
+                break;
+            }
+        }
         // hi/lo halves
         let half = 8 * l / 2;
         ints.push(alpha::pow2(half) - 1u32);
